@@ -27,10 +27,9 @@ tvars == <<l, dead, nviol, lastseq, bmap>>
 Trace == ndJsonDeserialize(IOEnv.VERIF_TRACE)
 Empty == [x \in {} |-> 0]
 
-PoolLines == { i \in 1..Len(Trace) : Trace[i].ev = "Pool" }
-MaxW == IF PoolLines = {} THEN 1
-        ELSE LET ws == { Trace[i].w : i \in PoolLines } IN CHOOSE m \in ws : \A x \in ws : x <= m
-TraceG == 1..MaxW
+\* the driver follows the first MaxWriters Writers of a program (fam_conc.go: maxWriters) and numbers them 1..MaxWriters
+MaxWriters == 300
+TraceG == 1..MaxWriters
 
 CInit ==
   /\ pool = {} /\ buf = [b \in {} |-> <<>>] /\ nextBuf = 1 /\ table = "ready"
